@@ -304,6 +304,29 @@ theorem file_order_any_sort (l r : List String) (hperm : r.Perm l) (hsorted : r.
   · exact List.pairwise_mergeSort ge_trans ge_total l
   · exact hperm.trans (List.mergeSort_perm l _).symm
 
+/-- **sort_perm** — the model of `Sources.Sort` only reorders: the result is a permutation of the files handed in. -/
+theorem sort_perm (l : List String) : (sortFiles l).Perm l := List.mergeSort_perm l _
+
+/-- **sort_sorted** — the result is sorted by file name (descending); for distinct names strictly so, i.e. the
+    position of every file is determined by its name alone. -/
+theorem sort_sorted (l : List String) :
+    (sortFiles l).Pairwise (fun a b => b ≤ a) ∧ (l.Nodup → (sortFiles l).Pairwise (fun a b => b < a)) := by
+  have h : (sortFiles l).Pairwise (fun a b => b ≤ a) :=
+    (List.pairwise_mergeSort ge_trans ge_total l).imp (fun h => by simpa using h)
+  refine ⟨h, fun hn => ?_⟩
+  have hn' : (sortFiles l).Nodup := (sort_perm l).nodup_iff.mpr hn
+  have hboth := h.and hn'
+  exact hboth.imp (fun ⟨hle, hne⟩ => by
+    apply Decidable.byContradiction
+    intro hnlt
+    exact hne (String.le_antisymm (String.not_lt.mp hnlt) hle))
+
+/-- **sort_input_order_independent** — for every list of (distinct) file names and every order in which the very same
+    files are handed to the compiler (`gopherjs build a.go c.go b.go`, a directory listing, test files appended, …) the
+    processing order is the same. -/
+theorem sort_input_order_independent (l₁ l₂ : List String) (_hd : l₁.Nodup) (h : l₁.Perm l₂) :
+    sortFiles l₁ = sortFiles l₂ := file_order l₁ l₂ h
+
 theorem flatMap_congr' {β γ : Type} (l : List β) (f g : β → List γ) (h : ∀ x ∈ l, f x = g x) :
     l.flatMap f = l.flatMap g := by
   induction l with
